@@ -50,6 +50,10 @@ type c11Case struct {
 	// and C. Each backend connection must see exactly its own session's
 	// messages and each session's polls exactly its own backend's.
 	Reopen string `json:"reopen,omitempty"`
+	// Quiet > 0: that many idle sessions are polled the way the browser shim does (one
+	// poll outstanding, re-poll as soon as the previous poll is answered) while the
+	// backend stays silent for 16 s, then sends a message, and another at 20.6 s.
+	Quiet int `json:"quiet,omitempty"`
 }
 
 type c11Spec struct {
@@ -101,6 +105,15 @@ func c11Main(specBytes []byte) {
 	var wg sync.WaitGroup
 	for _, c := range spec.Cases {
 		c := c
+		if c.Quiet > 0 { // mostly waiting: does not take one of the parallel slots
+			wg.Add(1)
+			go func() {
+				defer wg.Done()
+				Start(c.ID)
+				Emit(c11Run(b, c))
+			}()
+			continue
+		}
 		sem <- struct{}{}
 		wg.Add(1)
 		go func() {
@@ -351,7 +364,9 @@ func c11Emit(b *bytes.Buffer, rng *rand.Rand, v interface{}, ws bool) {
 }
 
 var c11JSONClasses = []string{"headers", "headers", "headers-collide", "headers-collide", "headers-empty", "no-resource", "resource-no-headers",
-	"headers-not-object", "resource-not-object", "non-object", "truncated", "case-variant", "headers-all-present"}
+	"headers-not-object", "resource-not-object", "non-object", "truncated", "case-variant", "headers-all-present",
+	// not one JSON document although it begins with an object that has resource.headers: must pass untouched
+	"headers-then-second-object", "headers-then-trailing-text", "headers-then-garbage"}
 
 // c11JSONMsg builds a message for the injection workload; hdrNames are the
 // (canonical) names of the headers the data posts will carry.
@@ -411,6 +426,16 @@ func c11JSONMsg(rng *rand.Rand, hdrNames []string) (data []byte, class string) {
 	var b bytes.Buffer
 	c11Emit(&b, rng, v, rng.Intn(2) == 0)
 	data = b.Bytes()
+	switch class {
+	case "headers-then-second-object": // NDJSON: two objects in one frame
+		var b2 bytes.Buffer
+		c11Emit(&b2, rng, map[string]interface{}{"resource": map[string]interface{}{"headers": map[string]interface{}{}}, "n": float64(2)}, false)
+		data = append(append(data, []string{"\n", " ", "", "\r\n"}[rng.Intn(4)]...), b2.Bytes()...)
+	case "headers-then-trailing-text":
+		data = append(data, []string{" trailer", "\nEOF", " null", " 1", " \"x\"", ",{}"}[rng.Intn(6)]...)
+	case "headers-then-garbage":
+		data = append(data, []string{" \t }{", "}", "]", " \x00", "\n\n<xml/>", " \u00e9"}[rng.Intn(6)]...)
+	}
 	if class == "truncated" {
 		data = data[:len(data)-1-rng.Intn(len(data)/2+1)]
 		for len(data) > 0 && !utf8.Valid(data) { // never cut a rune in half: text frames are valid UTF-8
@@ -464,6 +489,10 @@ func c11Run(b *shimBackend, c c11Case) (res c11Result) {
 	h := shimProxy(nil, b.addr, "shim", false, c.Inject)
 	if c.CloseRace {
 		c11CloseRace(b, c, rng, h, &res, violate, timedOut)
+		return
+	}
+	if c.Quiet > 0 {
+		c11Quiet(b, c, h, &res, violate, timedOut)
 		return
 	}
 	version := c.Version
@@ -884,6 +913,113 @@ func c11Run(b *shimBackend, c c11Case) (res c11Result) {
 		shimPost(h, "close", nil, shimIDBody(s.id), shimBoundCall)
 	}
 	return res
+}
+
+// c11Quiet: idle sessions polled the way the injected browser shim polls
+// (one poll outstanding per session; as soon as a poll is answered with
+// anything but "closed" the next one is issued). The backend says nothing
+// for 16 s, then sends one message per session, and a second one at 20.6 s -
+// around the shim's own 20 s poll time-out. Every message has to come out
+// of the polls exactly once, in order.
+func c11Quiet(b *shimBackend, c c11Case, h http.Handler, res *c11Result, violate func(sig, msg string), timedOut func()) {
+	type q struct {
+		id       string
+		bc       *shimBConn
+		got      []shimMsg
+		statuses []string
+		token    string
+	}
+	var qs []*q
+	for i := 0; i < c.Quiet; i++ {
+		s := &q{token: fmt.Sprintf("%s-q%d", c.ID, i)}
+		id, bc, a := shimOpen(h, b, s.token, "/quiet/"+s.token, 1)
+		if id == "" || bc == nil {
+			violate("C11:open-failed", fmt.Sprintf("open answered %d %s", a.Status, shimTrunc(string(a.Body), 200)))
+			return
+		}
+		s.id, s.bc = id, bc
+		qs = append(qs, s)
+		defer b.forget(s.token)
+	}
+	sendAt := []time.Duration{16 * time.Second, 20600 * time.Millisecond}
+	want := func(i, k int) shimMsg {
+		return shimMsg{websocket.TextMessage, []byte(fmt.Sprintf("after a long silence: session %d message %d", i, k))}
+	}
+	t0 := time.Now()
+	var wg sync.WaitGroup
+	var mu sync.Mutex
+	for i, s := range qs {
+		i, s := i, s
+		wg.Add(2)
+		go func() { // backend
+			defer wg.Done()
+			for k, at := range sendAt {
+				time.Sleep(time.Until(t0.Add(at + time.Duration(i)*150*time.Millisecond)))
+				s.bc.send(want(i, k))
+			}
+		}()
+		go func() { // client
+			defer wg.Done()
+			for time.Since(t0) < 50*time.Second {
+				a := shimPost(h, "poll", nil, shimIDBody(s.id), shimBoundPoll)
+				mu.Lock()
+				res.Polls++
+				s.statuses = append(s.statuses, fmt.Sprintf("%d@%.1fs", a.Status, time.Since(t0).Seconds()))
+				mu.Unlock()
+				if a.Panic != "" {
+					violate("C11:panic:"+shimSlug(a.Panic), "poll panicked: "+a.Panic)
+					return
+				}
+				if !a.Answered {
+					timedOut()
+					violate("C11:poll-unanswered", "poll on a quiet session not answered within 30s")
+					return
+				}
+				if a.Status == 400 {
+					return
+				}
+				if a.Status == 200 {
+					ms, err := shimDecodePoll(a.Body, 1)
+					if err != nil {
+						violate("C11:server-to-client:undecodable", err.Error())
+						return
+					}
+					s.got = append(s.got, ms...)
+					if len(s.got) >= len(sendAt) && time.Since(t0) > sendAt[len(sendAt)-1] {
+						// everything expected is here; one more look for duplicates is taken below
+						return
+					}
+				}
+				// any other answer (the poll's own time-out, an error): the shim polls again at once
+			}
+		}()
+	}
+	wg.Wait()
+	for i, s := range qs {
+		// anything still queued (a duplicate) shows up when the session carries one more message
+		end := shimMsg{websocket.TextMessage, c11EndText}
+		s.bc.send(end)
+		for n := 0; n < 3 && (len(s.got) == 0 || !bytes.Equal(s.got[len(s.got)-1].D, c11EndText)); n++ {
+			a := shimPost(h, "poll", nil, shimIDBody(s.id), shimBoundPoll)
+			res.Polls++
+			if !a.Answered || a.Status != 200 {
+				s.statuses = append(s.statuses, fmt.Sprintf("%d(final)", a.Status))
+				if a.Status == 400 || !a.Answered {
+					break
+				}
+				continue
+			}
+			ms, _ := shimDecodePoll(a.Body, 1)
+			s.got = append(s.got, ms...)
+		}
+		sent := []shimMsg{want(i, 0), want(i, 1), end}
+		res.S2C += len(s.got)
+		if sig, msg := c11Compare(sent, s.got, func(_ int, a, g shimMsg) string { return c11Same(a, g) }); sig != "" {
+			violate("C11:server-to-client-after-quiet-poll:"+sig, fmt.Sprintf("session %s was polled continuously (one poll outstanding) while its backend stayed silent, then sent one message %.1f s and one %.1f s after the first poll began; poll answers %v: %s", s.id, (sendAt[0]+time.Duration(i)*150*time.Millisecond).Seconds(), (sendAt[1]+time.Duration(i)*150*time.Millisecond).Seconds(), s.statuses, msg))
+		}
+		shimPost(h, "close", nil, shimIDBody(s.id), shimBoundCall)
+	}
+	res.PollShape = fmt.Sprintf("quiet:%v", qs[0].statuses)
 }
 
 // c11EndFirstSession carries one message each way over session A and ends
